@@ -484,6 +484,8 @@ func checkC06(R *Run) {
 	}
 	R.floor("subset-loop", 2)
 	R.floor("subset-bitmap", 2)
+	R.ruleSessionAccessRefresh()
+	R.ruleManagerStoresGiven()
 
 	// Create must not be called from anywhere else on a request path
 	for _, fn := range P.Funcs {
@@ -599,3 +601,86 @@ func nCreateIn(fn *ssa.Function, target ssa.Instruction) int {
 }
 
 func init() { register("C06", checkC06) }
+
+// ruleSessionAccessRefresh (C06): the subset check and the protection check read the access snapshot of LIVE
+// sessions (cc.Account.Access).  When an account is edited, every connected session of that login that is told its
+// new access (TranUserAccess) must also get it: the store into the session's Account.Access follows the notice on
+// every path through the iteration.
+func (R *Run) ruleSessionAccessRefresh() {
+	P := R.P
+	R.rule("session-access-refresh", "in the account editor, every construction of the 'your access changed' notice (TranUserAccess) for a connected session is followed, before the next session is considered or the handler returns, by the store of the edited access into that session's Account.Access: no condition (such as 'the admin flag did not flip') skips the refresh")
+	n := 0
+	for _, reg := range R.registeredHandlers() {
+		fn := reg.Fn
+		for _, ci := range callsIn(fn) {
+			c := ci.Common()
+			if calleeName(c) != "hotline.NewTransaction" {
+				continue
+			}
+			if g, _ := globalName(c.Args[0]); g != "hotline.TranUserAccess" {
+				continue
+			}
+			n++
+			R.analysed(fname(fn))
+			isRefresh := func(ins ssa.Instruction) bool {
+				st, ok := ins.(*ssa.Store)
+				if !ok {
+					return false
+				}
+				fa, ok := st.Addr.(*ssa.FieldAddr)
+				if !ok {
+					return false
+				}
+				if f, _ := fieldOf(fa); f != "hotline.Account.Access" {
+					return false
+				}
+				acc, ok := loadedField(fa.X)
+				return ok && acc == "hotline.ClientConn.Account"
+			}
+			// from the notice: the refresh before the loop comes round or the function returns
+			start := ci.(ssa.Instruction)
+			ok := true
+			var where ssa.Instruction
+			sb := start.Block()
+			hit := false
+			for i := instrIndex(start) + 1; i < len(sb.Instrs); i++ {
+				if isRefresh(sb.Instrs[i]) {
+					hit = true
+				}
+			}
+			if !hit {
+				var items []psItem
+				for _, s := range feasibleSuccs(sb, nilState{}, false) {
+					items = append(items, psItem{s.blk, enterBlock(sb, s.blk, s.st)})
+				}
+				explore(items, nil, false, func(b *ssa.BasicBlock, _ nilState) bool {
+					if !ok {
+						return false
+					}
+					if b == sb {
+						ok = false // came round the loop
+						where = start
+						return false
+					}
+					for _, ins := range b.Instrs {
+						if isRefresh(ins) {
+							return false
+						}
+						if r, isRet := ins.(*ssa.Return); isRet {
+							ok = false
+							where = r
+							return false
+						}
+					}
+					return true
+				})
+			}
+			pos := P.ipos(ci)
+			if where != nil {
+				pos = P.ipos(where)
+			}
+			R.check(ok, "session-access-refresh", fmt.Sprintf("%s: TranUserAccess notice #%d", fname(fn), nCreateIn(fn, ci)), pos, "followed by session.Account.Access = edited access", "a connected session is told its access changed but keeps its old access snapshot on some path: it goes on passing (or failing) the privilege, subset and protection checks of the account it used to be")
+		}
+	}
+	R.floor("session-access-refresh", 1)
+}
